@@ -168,6 +168,7 @@ fn unknown_of(root: &Value, known: &[&str]) -> Vec<String> {
 /// what the minter itself answers (queries) — compared with the ghost, used for frame checks
 #[derive(Clone, Debug, Default, PartialEq)]
 struct Snap {
+    cfg_readable: bool,
     start: u64,
     limit: u32,
     req: Vec<(u64, u32)>,
@@ -363,11 +364,25 @@ impl S {
         out
     }
     fn snap(&self) -> Snap {
-        let cfg = self.w.query(&self.a(SELF), &json!({"config": {}})).expect("config");
+        // Config through the query; a field the query no longer shows is taken from the typed stored Config; if that is not
+        // readable either, the ghost's value stands in (the comparison is then vacuous, noted once in `main`)
+        let cfg = self.w.query(&self.a(SELF), &json!({"config": {}})).unwrap_or(Value::Null);
+        let stored = {
+            let st = self.w.app.contract_storage(&Addr::unchecked(self.a(SELF)));
+            token_merge_minter::state::CONFIG.may_load(&*st).ok().flatten()
+        };
+        let start = cfg["start_time"].as_str().and_then(|x| x.parse().ok()).or(stored.as_ref().map(|c| c.extension.start_time.nanos()));
+        let limit = cfg["per_address_limit"].as_u64().map(|x| x as u32).or(stored.as_ref().map(|c| c.extension.per_address_limit));
+        let req = if cfg["mint_tokens"].is_array() {
+            Some(self.pairs(&cfg["mint_tokens"]))
+        } else {
+            stored.as_ref().map(|c| c.extension.mint_tokens.iter().map(|m| (self.id(&m.collection), m.amount)).collect())
+        };
         let mut s = Snap {
-            start: cfg["start_time"].as_str().and_then(|x| x.parse().ok()).unwrap_or(0),
-            limit: cfg["per_address_limit"].as_u64().unwrap_or(0) as u32,
-            req: self.pairs(&cfg["mint_tokens"]),
+            cfg_readable: start.is_some() && limit.is_some() && req.is_some(),
+            start: start.unwrap_or(self.g.start),
+            limit: limit.unwrap_or(self.g.limit),
+            req: req.unwrap_or_else(|| self.g.req.clone()),
             left: self.q_left(),
             tnum: self.q_num(TGT),
             ..Default::default()
@@ -514,8 +529,8 @@ impl S {
         let post = self.snap();
         if ok {
             match kind {
-                "set_start" => self.g.start = post.start,
-                "set_limit" => self.g.limit = post.limit,
+                "set_start" => self.g.start = if post.cfg_readable { post.start } else { kv_u64(line, "t").unwrap_or(post.start) },
+                "set_limit" => self.g.limit = if post.cfg_readable { post.limit } else { kv_u64(line, "limit").unwrap_or(post.limit as u64) as u32 },
                 "purge" => self.g.cnt.clear(),
                 "burn_remaining" => self.g.left = 0,
                 _ => {}
@@ -1945,6 +1960,9 @@ fn main() {
         ses.exhaustive = true;
     } else {
         exhaustive(&mut ses, &mut sut, 3);
+    }
+    if !sut.cur.cfg_readable {
+        ses.note("Config (start time / limit / requirement vector) is readable neither through the query nor through token_merge_minter::state::CONFIG: the monitors *-changed-outside-update / requirements-changed were vacuous");
     }
     if sut.storage_unreadable {
         ses.note("RECEIVED_TOKENS could not be read through token_merge_minter::state (layout changed?): monitor ledger-storage-differs was switched off, ledger-query-differs stays on");
